@@ -281,7 +281,7 @@ PROPS["C02"] = dict(
 
 PROPS["C06"] = dict(
     gen=[("tables", "ServlinVerif/Gen/CodeTables.lean")],
-    suites=["c06", "c07", "c14", "c13w"],
+    suites=["c06", "c07", "c14", "c13w", "c08c"],
     lean_modules=["ServlinVerif.Props.C06", "ServlinVerif.Props.C06RoundTrip", "ServlinVerif.Props.C06Chunked", "ServlinVerif.Props.C07", "ServlinVerif.Props.CodeTables"],
     audit="Audit/C06.lean",
     rule="write_http_response(scripted writer): every status code 100..999 with rotating content types; 1200 (8000) random responses: all "
@@ -291,7 +291,7 @@ PROPS["C06"] = dict(
          "1..n bytes per call with interleaved Pending. The wire is parsed by the strict independent parser Spec/RespParser. "
          "Non-trivial = at least one extra field or a non-empty body.",
     nontrivial=lambda tag, args, obs: (args[2] != "" or len(args[3]) > 2) if tag == "c06" else args[0] != "",
-    klass=lambda tag, args, obs: "c13w:response-in-flight-at-revocation" if tag == "c13" else ("c06:body=%s:%s" % (args[3][:1], (obs.split(" r=")[1].split(" ")[0] if " r=" in obs else obs[:10]))) if tag == "c06" else ("c07" if tag == "c07" else "c14:header-list-ops"),
+    klass=lambda tag, args, obs: "c08c:file-fault-at-connection-level" if tag == "c05" else "c13w:response-in-flight-at-revocation" if tag == "c13" else ("c06:body=%s:%s" % (args[3][:1], (obs.split(" r=")[1].split(" ")[0] if " r=" in obs else obs[:10]))) if tag == "c06" else ("c07" if tag == "c07" else "c14:header-list-ops"),
     explanation="write_http_response modelled (head construction, duplicate guards, sized body via take(len), chunked body via C07's model, "
                 "writer failing at an offset). Theorems: C06_dup_refused (a colliding or second framing field => zero bytes written), "
                 "C06_head_shape (automatic fields and exactly one framing field, never both), C06_sized_body (Content-Length = bytes sent), "
@@ -441,7 +441,7 @@ PROPS["C04"] = dict(
 )
 
 PROPS["C09"] = dict(
-    suites=["c09"],
+    suites=["c09", "c20x", "c13f"],
     shards={"c09": 4},
     lean_modules=["ServlinVerif.Props.C09"],
     audit="Audit/C09.lean",
@@ -449,8 +449,8 @@ PROPS["C09"] = dict(
          "L in {0,1,S-1,S,S+1,M-1,M,M+1,M+2} x {declared, undeclared} x {with, without Expect} x cache dir {on, off (subset)}; bodies up to "
          "150 KB are sent in full, larger declared lengths with a short body (client EOF); handler answers fetch-body(M); observed = handler "
          "call log, transcript, files left. Non-trivial = L > 0.",
-    nontrivial=lambda tag, args, obs: ":u::" not in args[3] and ":k::" not in args[3],
-    klass=lambda tag, args, obs: "c09:S=%s:%s" % (args[0], ("2calls" if obs.count("|") >= 1 else "1call")),
+    nontrivial=lambda tag, args, obs: tag in ("c20x", "c13") or ":u::" not in args[3] and ":k::" not in args[3],
+    klass=lambda tag, args, obs: "c20x:error-values" if tag == "c20x" else "c13f:replacement-server-on-the-same-cache-dir" if tag == "c13" else "c09:S=%s:%s" % (args[0], ("2calls" if obs.count("|") >= 1 else "1call")),
     explanation="The relevant part of the connection model: small-body shortcut (L <= S), BodyTooLong before reading for declared L > M, "
                 "take(M+1) then compare for undeclared length (saturating at 2^64-1). Theorems C09_small_direct, C09_large_asks_first, "
                 "C09_declared_limit, C09_undeclared_limit (incl. the <= M+1 bytes-on-disk bound), C09_max_limit hold for all L, S, M. The oracle "
@@ -464,8 +464,8 @@ PROPS["C09"] = dict(
 )
 
 PROPS["C10"] = dict(
-    suites=["c10", "c10r", "c10s"],
-    shards={"c10": 4, "c10r": 1, "c10s": 2},
+    suites=["c10", "c10r", "c10s", "c04p", "c12i"],
+    shards={"c10": 4, "c10r": 1, "c10s": 2, "c04p": 3, "c12i": 1},
     lean_modules=["ServlinVerif.Props.C10"],
     audit="Audit/C10.lean",
     rule="full server over loopback with a cache directory: uploads of known / unknown length / Expect, lengths {200, 8192, 70000} (thorough: "
@@ -473,8 +473,8 @@ PROPS["C10"] = dict(
          "completely (single write, fragments, 3 concurrent connections), with the cache dir removed, and cut by client disconnect at offsets "
          "{0, 1, mid-buffer, buffer boundary, len-1, len, len+1}; the cache dir is listed after each scenario. Non-trivial = an upload file "
          "was created (second handler call or truncated upload).",
-    nontrivial=lambda tag, args, obs: tag == "c10s" or True,
-    klass=lambda tag, args, obs: "c10s:stalled=" + args[0] if tag == "c10s" else "c10r:revoked-while-handler-owns-upload" if tag == "c13" else "c10:%s:cache=%s" % (re.sub(r"[0-9]+", "N", args[2]), args[1]),
+    nontrivial=lambda tag, args, obs: tag in ("c04p", "c12i") or tag == "c10s" or True,
+    klass=lambda tag, args, obs: "c04p:pool=" + args[0] if tag == "c04p" else "c12i:failing-accepts" if tag == "c12i" else "c10s:stalled=" + args[0] if tag == "c10s" else "c10r:revoked-while-handler-owns-upload" if tag == "c13" else "c10:%s:cache=%s" % (re.sub(r"[0-9]+", "N", args[2]), args[1]),
     explanation="Upload files are part of the connection model (created ids, live set); readBodyToFile_files: an upload either hands over exactly "
                 "one new file owned by the returned body or leaves none - for every input, limit and disk fault; C10_exchange_no_leak and "
                 "C10_no_leak: after every exchange, and at the end of handle_http_conn, the live set equals the initial one, for every handler "
